@@ -198,11 +198,12 @@ func propC18() Property {
 	return Property{
 		ID: "C18",
 		Explanation: "R1 (weekday domain): every time.Weekday value that the schedule code uses as a weekday — compared with another weekday, passed to or returned from a Weekday-typed parameter/result, stored in a Weekday field — lies in [0,6], by interval analysis over the expression (Time.Weekday() ∈ [0,6], constants, parameter intervals joined over in-module call sites, Go's truncated %, +, −). A Weekday difference converted straight to int (day-offset arithmetic) is not a sink. " +
-			"R2 (day-name table): every key of the configuration's day map names the Weekday constant it maps to (three-letter prefix), and all seven days are present.",
+			"R2 (day-name table): every key of the configuration's day map names the Weekday constant it maps to (three-letter prefix), and all seven days are present. R3 (calendar days): window boundaries are wall-clock times in the configured zone, so moving a boundary by whole days must use calendar arithmetic (AddDate / time.Date); no time.Add / Sub in the schedule code takes a duration that is a day count times 24h — on a day with a zone transition that is an hour off, and two instants of one window are reported as different sessions.",
 		NotDecided: "window semantics, IsInSameRange as a relation, time zones, daylight saving.",
 		Rules: []RuleDef{
 			{ID: "C18-R1", Desc: "weekday values stay in [0,6]", Min: 4, Run: c18R1},
 			{ID: "C18-R2", Desc: "day-name table", Min: 7, Run: c18R2},
+			{ID: "C18-R3", Desc: "whole days are added on the calendar, not as multiples of 24h", Min: 1, Run: c18R3},
 		},
 	}
 }
@@ -465,4 +466,61 @@ func safeName(names []string, v int64) string {
 		return names[v]
 	}
 	return "out of range"
+}
+
+// constFactor: product of the constant factors of a multiplication tree (1 if none).
+func constFactor(o *Org, depth int) (int64, bool) {
+	if o == nil || depth > 8 {
+		return 1, false
+	}
+	if n, ok := o.ConstIntVal(); ok {
+		return n, true
+	}
+	if (o.Kind == "unop" || o.Kind == "convert") && o.Base != nil {
+		return constFactor(o.Base, depth+1)
+	}
+	if o.Kind == "binop" && o.Op == token.MUL {
+		a, _ := constFactor(o.X, depth+1)
+		b, _ := constFactor(o.Y, depth+1)
+		return a * b, false
+	}
+	return 1, false
+}
+
+func c18R3(c *Ctx) {
+	p := c.P
+	const day = int64(86400) * 1000000000
+	n := 0
+	for _, fn := range p.FuncsIn(modPath + "/internal") {
+		usesWindow := false
+		for _, cl := range Calls(fn) {
+			switch callName(cl.Common()) {
+			case "time.Date", "(time.Time).AddDate", "(time.Time).Weekday":
+				usesWindow = true
+			}
+		}
+		if !usesWindow {
+			continue
+		}
+		for _, cl := range Calls(fn) {
+			nm := callName(cl.Common())
+			if nm == "(time.Time).AddDate" || nm == "time.Date" {
+				n++
+				c.OK(FuncName(fn), p.InstrPos(cl.(ssa.Instruction)), "calendar arithmetic: "+nm)
+				continue
+			}
+			if nm != "(time.Time).Add" {
+				continue
+			}
+			n++
+			ao := p.Origin(cl.Common().Args[1])
+			f, isConst := constFactor(ao, 0)
+			bad := f != 0 && f%day == 0 && !(isConst && f == 0)
+			c.Check(!bad, FuncName(fn), p.InstrPos(cl.(ssa.Instruction)), "day-as-24h", "duration is not a multiple of 24h",
+				"a boundary is moved by "+ao.String()+", a multiple of 24 hours of absolute time: across a daylight-saving change the wall-clock boundary ends up an hour off; whole days must be added on the calendar (AddDate)")
+		}
+	}
+	if n == 0 {
+		c.Violation("", "-", "no-day-arithmetic", "the schedule code does no calendar arithmetic (time.Date / AddDate not found)")
+	}
 }
